@@ -62,12 +62,20 @@ SetNext(j) == /\ it[j].live
                           ELSE MinOf({x \in S[it[j].tree] : x > it[j].cur})]
               /\ UNCHANGED S
 
+(* AvlIterator.Clone(): an independent cursor on the same index at the same  *)
+(* position; advancing either one afterwards does not move the other.       *)
+SetIterClone(j, j2) == /\ j # j2
+                       /\ it[j].live
+                       /\ it' = [it EXCEPT ![j2] = it[j]]
+                       /\ UNCHANGED S
+
 SetNextAction ==
     \/ \E t \in Trees, k \in Keys : SetInsert(t, k) \/ SetDelete(t, k)
     \/ \E t, t2 \in Trees : SetClone(t, t2)
     \/ \E j \in Iters, t \in Trees : SetIter(j, t)
     \/ \E j \in Iters, t \in Trees, k \in Keys : SetIterFrom(j, t, k)
     \/ \E j \in Iters : SetNext(j)
+    \/ \E j, j2 \in Iters : SetIterClone(j, j2)
 
 SetSpec == SetInit /\ [][SetNextAction]_<<S, it>>
 
